@@ -1,5 +1,6 @@
 import Rie.Proofs.Sys
 import Rie.Props.Tables
+import Rie.Props.RoutesTable
 
 /-!
 # C12 — Runtime API calls are answered according to the lifecycle automaton
@@ -82,5 +83,29 @@ example :
     let s := step 0 (step 0 {} (.invoke 0 5 "h")) .rtNext
     s.rt = some .running ∧ (step 0 s (.rtInitError "Runtime.Late")).outs = ["rt.initerror=403,InvalidStateTransition"] ∧
       (step 0 s (.rtInitError "Runtime.Late")).core = s.core := by decide
+
+/-- **The route table is the source's.** The table `rawRoute` decides from — every (method, path)
+    registered in `lambda/rapi/router.go`, with the version prefix and the condition under which
+    `lambda/rapi/server.go` mounts it — is read from the source on every run (`unitdrv routes`,
+    go/ast) and equals the model's `routeTable` row by row; restore routes and the credentials route
+    exist under the snapshot condition only. -/
+theorem C12_routes_from_source :
+    Rie.Gen.routes = routeTable ∧
+    (Rie.Gen.routes.filter (·.2.2.1 == "snapshot")).map (·.2.1) =
+      ["/2018-06-01/runtime/restore/next", "/2018-06-01/runtime/restore/error", "/2021-04-23/credentials"] := by
+  refine ⟨RoutesTable.gen_routes_match, ?_⟩
+  rw [RoutesTable.gen_routes_match]; exact RoutesTable.guards.2.2.2
+
+/-- routing decisions for every kind of request that only exercises routing: a served route, a
+    served path with another method (405), an unknown path or version (404), the two telemetry
+    stubs (202 with their error type, PUT only), snapshot-only routes outside snapshot mode (404) -/
+theorem C12_routing_cases :
+    rawRoute false "GET" "/2018-06-01/ping" = "200" ∧ rawRoute false "POST" "/2018-06-01/ping" = "405" ∧
+    rawRoute false "PUT" "/2020-08-15/logs" = "202,Logs.NotSupported" ∧ rawRoute false "GET" "/2020-08-15/logs" = "405" ∧
+    rawRoute true "PUT" "/2022-07-01/telemetry" = "202,Telemetry.NotSupported" ∧
+    rawRoute false "GET" "/2019-01-01/runtime/invocation/next" = "404" ∧
+    rawRoute false "GET" "/2021-04-23/credentials" = "404" ∧ rawRoute true "POST" "/2021-04-23/credentials" = "405" ∧
+    rawRoute false "POST" "/2018-06-01/runtime/restore/error" = "404" ∧ rawRoute true "GET" "/2018-06-01/runtime/restore/error" = "405" ∧
+    rawRoute false "GET" "/2020-01-01/extension/register" = "405" := by decide
 
 end Rie.Props.C12
